@@ -121,8 +121,9 @@ fn kind_slug(kind: &str) -> &'static str {
 }
 
 fn repo_relative(file: &str) -> String {
-    match file.rfind("/repo/") {
-        Some(p) => file[p + 6..].to_string(),
+    // path of the source file inside the repository, wherever the repository is checked out
+    match file.find("/p2panda") {
+        Some(p) => file[p + 1..].to_string(),
         None => file.to_string(),
     }
 }
@@ -396,27 +397,50 @@ impl Proc {
     }
 }
 
-/// Replace hex ids (and Debug byte lists) by `#` so that classes do not depend on concrete ids.
+/// Replace hex ids and Debug byte lists (`[12, 200, 7, ...]`) by `#` so that classes do not depend on
+/// concrete ids.
 fn strip_ids(s: &str) -> String {
-    let mut out = String::new();
+    // 1. byte lists: a run of digits, commas and blanks of length >= 12
+    let mut t = String::new();
     let mut run = String::new();
-    let flush = |run: &mut String, out: &mut String| {
-        if run.len() >= 8 && run.chars().all(|c| c.is_ascii_hexdigit()) {
-            out.push('#');
-        } else {
-            out.push_str(run);
-        }
-        run.clear();
-    };
     for c in s.chars() {
-        if c.is_ascii_alphanumeric() {
+        if c.is_ascii_digit() || c == ',' || c == ' ' {
             run.push(c);
         } else {
-            flush(&mut run, &mut out);
+            if run.len() >= 12 && run.contains(',') {
+                t.push('#');
+            } else {
+                t.push_str(&run);
+            }
+            run.clear();
+            t.push(c);
+        }
+    }
+    if run.len() >= 12 && run.contains(',') {
+        t.push('#');
+    } else {
+        t.push_str(&run);
+    }
+    // 2. hex words of length >= 8
+    let mut out = String::new();
+    let mut word = String::new();
+    let flush = |word: &mut String, out: &mut String| {
+        if word.len() >= 8 && word.chars().all(|c| c.is_ascii_hexdigit()) {
+            out.push('#');
+        } else {
+            out.push_str(word);
+        }
+        word.clear();
+    };
+    for c in t.chars() {
+        if c.is_ascii_alphanumeric() {
+            word.push(c);
+        } else {
+            flush(&mut word, &mut out);
             out.push(c);
         }
     }
-    flush(&mut run, &mut out);
+    flush(&mut word, &mut out);
     out
 }
 
@@ -926,7 +950,7 @@ impl<'a> Adversary<'a> {
                 cases.push(("KeyBundle valid, own identity key".into(), SpacesArgs::KeyBundle { key_bundle: b }));
             }
             if let Some(b) = self.bundle(&other_secret, &other_secret, Lifetime::new(3600)) {
-                cases.push(("KeyBundle valid, different identity key than registered for this author".into(), SpacesArgs::KeyBundle { key_bundle: b }));
+                cases.push(("KeyBundle valid, but issued under a different identity key than the key bundle this author sent just before (previous menu entry)".into(), SpacesArgs::KeyBundle { key_bundle: b }));
             }
             if let Some(b) = self.bundle(&own_secret, &other_secret, Lifetime::new(3600)) {
                 cases.push(("KeyBundle with pre-key signed by a foreign key".into(), SpacesArgs::KeyBundle { key_bundle: b }));
@@ -1148,6 +1172,8 @@ impl<'a> Adversary<'a> {
 
 #[derive(Clone, Debug, PartialEq, Eq, PartialOrd, Ord)]
 struct Finding {
+    /// 0 = honest history only, 1 = adversarial message, 2 = duplicate delivery
+    origin: u8,
     key: String,
     /// ordering for "minimal": shorter history first, then text
     weight: (usize, String),
@@ -1176,10 +1202,14 @@ struct ExecOut {
     final_states: Vec<u64>,
 }
 
-struct Params {
-    peer_choices: Vec<usize>,
+struct Config {
+    peers: usize,
     depth: usize,
     accs: Vec<Acc>,
+}
+
+struct Params {
+    configs: Vec<Config>,
     kb_actors: Vec<usize>,
     menu: Menu,
 }
@@ -1201,7 +1231,8 @@ struct Scenario {
 
 /// Pure generation from the chooser and the membership model.
 fn generate(ch: &Chooser, params: &Params) -> Scenario {
-    let peers = params.peer_choices[ch.choose_free(params.peer_choices.len(), "peers")];
+    let cfg = &params.configs[ch.choose_free(params.configs.len(), "config")];
+    let peers = cfg.peers;
     let oob = ch.choose_free(2, "bootstrap") == 0;
     let mut acts = vec![];
     // position in the choice log after the choice that fixed action t
@@ -1213,13 +1244,13 @@ fn generate(ch: &Chooser, params: &Params) -> Scenario {
         }
     }
     let mut model = Model::default();
-    let vars = create_variants(peers, &params.accs);
+    let vars = create_variants(peers, &cfg.accs);
     let create = Act::Create(vars[ch.choose_free(vars.len(), "create")].clone());
     model.apply(&create);
     acts.push(create);
     fixed_at.push(ch.log().len());
-    for _ in 0..params.depth {
-        let opts = model.options(peers, &params.accs, &params.kb_actors);
+    for _ in 0..cfg.depth {
+        let opts = model.options(peers, &cfg.accs, &params.kb_actors);
         if opts.is_empty() {
             break;
         }
@@ -1254,6 +1285,7 @@ async fn execute(ch: &Chooser, params: &Params) -> ExecOut {
                 if let Some(Proc::Panic(pi)) = r {
                     ex.honest_panics.insert(format!("{} processing #{i} ({}) of [{}] ({boot}): {}", NAMES[p], run.msgs[i].kind, history_upto(&run.acts, &run.msgs, i), pi.site()));
                     ex.findings.push(Finding {
+                        origin: 0,
                         key: panic_class(pi),
                         // an honest history outranks any adversarial input as the reproduction to show
                         weight: (0, format!("{:03}", run.acts.len())),
@@ -1295,6 +1327,7 @@ async fn execute(ch: &Chooser, params: &Params) -> ExecOut {
             if let Proc::Panic(p) = &a.res {
                 let hist = if a.prefix_len == 0 { "(nothing yet)".to_string() } else { history_upto(&t.acts, &t.msgs, a.prefix_len - 1) };
                 ex.findings.push(Finding {
+                    origin: 1,
                     key: panic_class(p),
                     weight: (a.prefix_len, format!("{}{}", if a.label.contains("by Eve") || a.label.contains("author Eve") { 0 } else { 1 }, a.label)),
                     what: format!(
@@ -1318,6 +1351,7 @@ async fn execute(ch: &Chooser, params: &Params) -> ExecOut {
         if d.msgs.len() != n || d.msgs.iter().zip(&b0.msgs).any(|(a, b)| a.kind != b.kind || a.author != b.author) {
             // the run with duplicates did not even produce the same shape of history
             ex.findings.push(Finding {
+                origin: 2,
                 key: "latent-divergence/history-shape".into(),
                 weight: (j, String::new()),
                 what: format!(
@@ -1350,6 +1384,7 @@ async fn execute(ch: &Chooser, params: &Params) -> ExecOut {
                 Proc::Panic(p) => {
                     fired.insert(o.peer);
                     ex.findings.push(Finding {
+                        origin: 2,
                         key: panic_class(p),
                         weight: weight.clone(),
                         what: format!("duplicate delivery panicked: {ctx}: '{}' at {}:{}", p.msg, p.file, p.line),
@@ -1359,6 +1394,7 @@ async fn execute(ch: &Chooser, params: &Params) -> ExecOut {
                 Proc::Events(kinds, full) if !kinds.is_empty() => {
                     fired.insert(o.peer);
                     ex.findings.push(Finding {
+                        origin: 2,
                         key: format!("idempotency/{}/events-re-emitted", kind_slug(&kind)),
                         weight: weight.clone(),
                         what: format!("second processing emitted events again: {ctx} -> Ok({})", full.chars().take(260).collect::<String>()),
@@ -1383,6 +1419,7 @@ async fn execute(ch: &Chooser, params: &Params) -> ExecOut {
                     parts.push("members".into());
                 }
                 ex.findings.push(Finding {
+                    origin: 2,
                     key: format!("idempotency/{}/state-changed", kind_slug(&kind)),
                     weight: weight.clone(),
                     what: format!("second processing changed persisted state: {ctx}; it returned {}; changed fields: {}", o.res.class(), parts.join(" ")),
@@ -1402,6 +1439,7 @@ async fn execute(ch: &Chooser, params: &Params) -> ExecOut {
                 let (x, y) = (d.first[i][p].as_ref().map(|r| r.class()), b0.first[i][p].as_ref().map(|r| r.class()));
                 if x != y {
                     ex.findings.push(Finding {
+                        origin: 2,
                         key: "latent-divergence/later-delivery-result".into(),
                         weight: (i, format!("{j}{p}")),
                         what: format!(
@@ -1415,6 +1453,7 @@ async fn execute(ch: &Chooser, params: &Params) -> ExecOut {
             }
             if d.finals.len() == b0.finals.len() && d.finals[p].members != b0.finals[p].members {
                 ex.findings.push(Finding {
+                    origin: 2,
                     key: "latent-divergence/final-members".into(),
                     weight: (n, format!("{j}{p}")),
                     what: format!(
@@ -1444,14 +1483,24 @@ pub fn run(mut rep: Report) -> i32 {
     clock::freeze(FROZEN_NOW);
     let thorough = rep.thorough();
     let params = if thorough {
-        Params { peer_choices: vec![2, 3], depth: 3, accs: vec![Acc::Write, Acc::Pull, Acc::Manage], kb_actors: vec![0, 1, 2], menu: Menu { member_authors: 2, wide: true } }
+        Params {
+            configs: vec![
+                Config { peers: 2, depth: 3, accs: vec![Acc::Write, Acc::Pull, Acc::Manage] },
+                Config { peers: 3, depth: 2, accs: vec![Acc::Write, Acc::Pull] },
+            ],
+            kb_actors: vec![1, 2],
+            menu: Menu { member_authors: 1, wide: true },
+        }
     } else {
-        Params { peer_choices: vec![2], depth: 2, accs: vec![Acc::Write, Acc::Pull], kb_actors: vec![1], menu: Menu { member_authors: 1, wide: false } }
+        Params { configs: vec![Config { peers: 2, depth: 2, accs: vec![Acc::Write, Acc::Pull] }], kb_actors: vec![1], menu: Menu { member_authors: 1, wide: false } }
     };
+    let cfg_text = params.configs.iter().map(|c| format!("{} peers/{} actions after create/access {:?}", c.peers, c.depth, c.accs)).collect::<Vec<_>>().join(" | ");
     rep.rule = format!(
-        "scenario = peers in {:?} x bootstrap(out-of-band | key-bundle messages) x every create_space variant over access {:?} x every model-valid action sequence of length {} over add/remove/publish/key-bundle; every prefix is probed once (by the scenario whose later choices are all 0): totality menu for every receiver after every owned action, and for every owned message position j one run in which every peer re-processes every message i<=j; non-trivial = owning scenario with a membership change or an application message after creation",
-        params.peer_choices, params.accs, params.depth
+        "scenario = config in [{cfg_text}] x bootstrap(out-of-band | key-bundle messages) x every create_space variant x every model-valid action sequence over add/remove/publish/key-bundle; every prefix is probed once (by the scenario whose later choices are all 0): totality menu for every receiver after every owned action, and for every owned message position j one run in which every peer re-processes every message i<=j; non-trivial = owning scenario with a membership change or an application message after creation"
     );
+    // size of the scenario space (pure generation, nothing executed)
+    let space = explorer::dfs(&DfsCfg::default(), |ch| generate(ch, &params).acts.len(), |_, _| {});
+    rep.set("scenario_space", json!(space.executions));
     let cfg = DfsCfg {
         max_dev: usize::MAX,
         max_execs: u64::MAX,
@@ -1460,7 +1509,7 @@ pub fn run(mut rep: Report) -> i32 {
     };
 
     struct Agg {
-        findings: BTreeMap<String, (Finding, u64)>,
+        findings: BTreeMap<(String, u8), (Finding, u64)>,
         outcomes: BTreeSet<String>,
         kinds: BTreeSet<String>,
         dup_evals: u64,
@@ -1514,7 +1563,7 @@ pub fn run(mut rep: Report) -> i32 {
                 *agg.refused.entry(r.chars().take(120).collect()).or_insert(0) += 1;
             }
             for f in ex.findings {
-                match agg.findings.get_mut(&f.key) {
+                match agg.findings.get_mut(&(f.key.clone(), f.origin)) {
                     Some((best, count)) => {
                         *count += 1;
                         if f.weight < best.weight || (f.weight == best.weight && f.what < best.what) {
@@ -1522,7 +1571,7 @@ pub fn run(mut rep: Report) -> i32 {
                         }
                     }
                     None => {
-                        agg.findings.insert(f.key.clone(), (f, 1));
+                        agg.findings.insert((f.key.clone(), f.origin), (f, 1));
                     }
                 }
             }
@@ -1562,7 +1611,7 @@ pub fn run(mut rep: Report) -> i32 {
     for s in agg.samples.into_iter().take(5) {
         rep.sample(s);
     }
-    rep.set("scenarios", json!(agg.scenarios));
+    rep.set("scenarios_executed", json!(agg.scenarios));
     rep.set("duplicate_deliveries_checked", json!(agg.dup_evals));
     rep.set("adversarial_messages_checked", json!(agg.adv_evals));
     rep.set("max_messages_per_scenario", json!(agg.max_msgs));
@@ -1580,10 +1629,20 @@ pub fn run(mut rep: Report) -> i32 {
     for m in agg.machinery {
         rep.machinery_error(m);
     }
-    for (key, (f, count)) in agg.findings {
+    // one violation per key; the text carries the minimal reproduction of every origin that reached it
+    let mut merged: BTreeMap<String, (Vec<String>, serde_json::Value)> = BTreeMap::new();
+    for ((key, origin), (f, count)) in agg.findings {
         let replay: serde_json::Value = serde_json::from_str(&f.replay).unwrap_or(json!(null));
-        // occurrences are added by the report per call; call once and state the count
-        rep.violation(key, format!("{} [{} occurrences in this run]", f.what, count), replay);
+        let tag = match origin {
+            0 => "honest history",
+            1 => "adversarial message",
+            _ => "duplicate delivery",
+        };
+        let e = merged.entry(key).or_insert((vec![], replay));
+        e.0.push(format!("({tag}, {count} occurrences) {}", f.what));
+    }
+    for (key, (texts, replay)) in merged {
+        rep.violation(key, texts.join(" || "), replay);
     }
     rep.finish()
 }
